@@ -170,6 +170,9 @@ def absorb_d(rep, hs, crate, result, wall, features):
         if rep["covers"].get(c, 0) == 0 and not rep["violations"]:
             result["inconclusive"].append(f"{name}: vacuity witness '{c}' was never reached")
     for v in rep["violations"]:
+        # a harness shared with another property may be restricted to the obligations that belong to this one
+        if hs.get("only") and not any(v["check"].startswith(pfx) for pfx in hs["only"]):
+            continue
         v = dict(v)
         v["harness"] = hs["name"]
         v["variant"] = name
